@@ -276,6 +276,179 @@ func main() {
 		}
 		out.WriteString("]\n\n")
 	}
+	emitShutdownSites(&out, repo, files)
 	out.WriteString("end CV.C17.Gen\n")
 	os.Stdout.Write(out.Bytes())
+}
+
+// ---- semantic structure: where Cluster.Shutdown is started from inside cluster.go
+//
+// Every mention of `c.Shutdown` (called, spawned, deferred or taken as a value) in any function of cluster.go, with
+// the conditions that enclose it (if conditions, negated for else arms; `case:<comm>` for select / switch arms;
+// `func` for function literals), and whether an assignment `c.removed = true` / `c.readyB = true` DOMINATES it (an
+// earlier statement of the same or of an enclosing block). The Lean model (`Model/C17Depart.lean`) classifies and
+// interprets the sites; a site it does not know is a failed obligation.
+
+type siteRec struct {
+	fn            string
+	path          []string
+	flagged, rset bool
+}
+
+type siteWalker struct {
+	fn    string
+	sites []siteRec
+}
+
+func isSelfShutdown(n ast.Node) bool {
+	se, ok := n.(*ast.SelectorExpr)
+	if !ok || se.Sel.Name != "Shutdown" {
+		return false
+	}
+	id, ok := se.X.(*ast.Ident)
+	return ok && id.Name == "c"
+}
+
+func (w *siteWalker) scan(n ast.Node, path []string, fl, rs bool) {
+	if n == nil {
+		return
+	}
+	ast.Inspect(n, func(x ast.Node) bool {
+		if fl, ok := x.(*ast.FuncLit); ok {
+			w.stmts(fl.Body.List, append(append([]string{}, path...), "func"), false, false)
+			return false
+		}
+		if isSelfShutdown(x) {
+			w.sites = append(w.sites, siteRec{w.fn, append([]string{}, path...), fl, rs})
+		}
+		return true
+	})
+}
+
+func fieldSetTrue(s ast.Stmt, field string) bool {
+	a, ok := s.(*ast.AssignStmt)
+	if !ok {
+		return false
+	}
+	for i, l := range a.Lhs {
+		if i < len(a.Rhs) && src(l) == "c."+field && src(a.Rhs[i]) == "true" {
+			return true
+		}
+	}
+	return false
+}
+
+func (w *siteWalker) stmts(l []ast.Stmt, path []string, fl, rs bool) {
+	for _, s := range l {
+		w.stmt(s, path, fl, rs)
+		if fieldSetTrue(s, "removed") {
+			fl = true
+		}
+		if fieldSetTrue(s, "readyB") {
+			rs = true
+		}
+	}
+}
+
+func (w *siteWalker) stmt(s ast.Stmt, path []string, fl, rs bool) {
+	with := func(c string) []string { return append(append([]string{}, path...), c) }
+	switch x := s.(type) {
+	case *ast.BlockStmt:
+		w.stmts(x.List, path, fl, rs)
+	case *ast.LabeledStmt:
+		w.stmt(x.Stmt, path, fl, rs)
+	case *ast.IfStmt:
+		if x.Init != nil {
+			w.stmt(x.Init, path, fl, rs)
+		}
+		w.scan(x.Cond, path, fl, rs)
+		w.stmts(x.Body.List, with(src(x.Cond)), fl, rs)
+		if x.Else != nil {
+			w.stmt(x.Else, with("!("+src(x.Cond)+")"), fl, rs)
+		}
+	case *ast.ForStmt:
+		if x.Init != nil {
+			w.stmt(x.Init, path, fl, rs)
+		}
+		w.scan(x.Cond, path, fl, rs)
+		if x.Post != nil {
+			w.stmt(x.Post, path, fl, rs)
+		}
+		w.stmts(x.Body.List, path, fl, rs)
+	case *ast.RangeStmt:
+		w.scan(x.X, path, fl, rs)
+		w.stmts(x.Body.List, path, fl, rs)
+	case *ast.SelectStmt:
+		for _, c := range x.Body.List {
+			cc := c.(*ast.CommClause)
+			lab := "case:default"
+			if cc.Comm != nil {
+				lab = "case:" + src(cc.Comm)
+				w.stmt(cc.Comm, path, fl, rs)
+			}
+			w.stmts(cc.Body, with(lab), fl, rs)
+		}
+	case *ast.SwitchStmt:
+		if x.Init != nil {
+			w.stmt(x.Init, path, fl, rs)
+		}
+		w.scan(x.Tag, path, fl, rs)
+		for _, c := range x.Body.List {
+			cc := c.(*ast.CaseClause)
+			lab := "case:default"
+			if len(cc.List) > 0 {
+				ls := make([]string, len(cc.List))
+				for i, e := range cc.List {
+					ls[i] = src(e)
+					w.scan(e, path, fl, rs)
+				}
+				lab = "case:" + strings.Join(ls, ",")
+			}
+			w.stmts(cc.Body, with(lab), fl, rs)
+		}
+	case *ast.TypeSwitchStmt:
+		for _, c := range x.Body.List {
+			cc := c.(*ast.CaseClause)
+			w.stmts(cc.Body, with("case:type"), fl, rs)
+		}
+	default:
+		w.scan(s, path, fl, rs)
+	}
+}
+
+func emitShutdownSites(out *bytes.Buffer, repo string, files map[string]*ast.File) {
+	f, ok := files["cluster.go"]
+	if !ok {
+		var err error
+		f, err = parser.ParseFile(fset, filepath.Join(repo, "cluster.go"), nil, 0)
+		if err != nil {
+			fmt.Fprintln(os.Stderr, err)
+			os.Exit(1)
+		}
+	}
+	var all []siteRec
+	for _, d := range f.Decls {
+		fd, ok := d.(*ast.FuncDecl)
+		if !ok || fd.Body == nil {
+			continue
+		}
+		w := &siteWalker{fn: fd.Name.Name}
+		w.stmts(fd.Body.List, nil, false, false)
+		all = append(all, w.sites...)
+	}
+	out.WriteString("/-- cluster.go: every place that starts `c.Shutdown` on the peer itself: (function, enclosing conditions outermost\n")
+	out.WriteString("    first, `c.removed = true` dominates it, `c.readyB = true` dominates it) -/\n")
+	out.WriteString("def shutdownSites : List (String × List String × Bool × Bool) := [\n")
+	for i, s := range all {
+		ps := make([]string, len(s.path))
+		for k, p := range s.path {
+			ps[k] = leanStr(p)
+		}
+		sep := ","
+		if i == len(all)-1 {
+			sep = ""
+		}
+		fmt.Fprintf(out, "  (%s, [%s], %v, %v)%s\n", leanStr(s.fn), strings.Join(ps, ", "), s.flagged, s.rset, sep)
+	}
+	out.WriteString("]\n\n")
 }
